@@ -51,6 +51,12 @@ def compile_yaml(y, mode="plain"):
         import copy
         from teaal.parse.yaml import YamlParser
         d = YamlParser.parse_str(y)
+        from . import hooks
+        hooks.install_swizzle_probe()
+        try:
+            hooks._CURRENT[0] = hooks.norm_exprs(d["einsum"]["expressions"])
+        except Exception:
+            hooks._CURRENT[0] = None
         e = Einsum(copy.deepcopy(d))
         m = Mapping(copy.deepcopy(d))
         if mode == "metrics":
